@@ -211,6 +211,63 @@ func main() {
 		{dec, "Decoder.readUint64", "bodyReadUint64"}, {dec, "Decoder.decodeString", "bodyDecodeString"},
 		{dec, "Decoder.decode", "bodyDecode"}, {dec, "Decoder.Decode", "bodyDecodeTop"},
 	}
+	// 7. dawn's host unpickler (function.go): the names it switches on, the string keys it writes, that it has no
+	// explicit panic (every panic in it is a runtime.Error), and its normalised body
+	if fn, err := lib.Parse(*repo, "function.go"); err != nil {
+		o.Fail("parse function.go: %v", err)
+	} else {
+		bytesOf := func(ss []string) string {
+			var parts []string
+			for _, s := range ss {
+				var xs []int
+				for _, b := range []byte(s) {
+					xs = append(xs, int(b))
+				}
+				parts = append(parts, lib.LeanNatList(xs))
+			}
+			return "[" + strings.Join(parts, ",\n   ") + "]"
+		}
+		var names, keys []string
+		panics := 0
+		for _, fname := range []string{"envUnpickler", "makeDictFromAssociationList"} {
+			fd := fn.Func(fname)
+			if fd == nil {
+				o.Fail("func %s not found", fname)
+				continue
+			}
+			ast.Inspect(fd.Body, func(n ast.Node) bool {
+				switch n := n.(type) {
+				case *ast.CaseClause:
+					for _, e := range n.List {
+						if bl, ok := e.(*ast.BasicLit); ok && bl.Kind == token.STRING {
+							if s, ok := lib.Unquote(bl); ok {
+								names = append(names, s)
+							}
+						}
+					}
+				case *ast.CallExpr:
+					if id, ok := n.Fun.(*ast.Ident); ok && id.Name == "panic" {
+						panics++
+					}
+					if se, ok := n.Fun.(*ast.SelectorExpr); ok && se.Sel.Name == "String" && len(n.Args) == 1 {
+						if x, ok := se.X.(*ast.Ident); ok && x.Name == "starlark" {
+							if bl, ok := n.Args[0].(*ast.BasicLit); ok {
+								if s, ok := lib.Unquote(bl); ok {
+									keys = append(keys, s)
+								}
+							}
+						}
+					}
+				}
+				return true
+			})
+			o.Def("body"+strings.ToUpper(fname[:1])+fname[1:], "String", lib.LeanLongString(lib.NormFunc(fd)))
+		}
+		o.Def("envNames", "List (List Nat)", bytesOf(names))
+		o.Def("envStrings", "List (List Nat)", bytesOf(keys))
+		o.Def("envExplicitPanics", "Nat", strconv.Itoa(panics))
+	}
+
 	for _, b := range bodies {
 		fd := b.f.Func(b.name)
 		if fd == nil {
